@@ -76,6 +76,30 @@ def r1_raw_read(ctx, R1):
             closed = any(e[1] == "self._fp.close" for e in r.events("call"))
             ctx.ob(R1, rr.qual, "the stdlib response is closed before IncompleteRead is raised", closed, witness=r.witness(), node=rr.node)
     ctx.sites(R1, ncrit, 2, "end-of-stream rows with bytes possibly outstanding")
+    # urllib3 itself must not end the stream early: a row that returns a non-empty piece AND closes the stdlib response does so
+    # only because this piece is the last one (declared remaining length, as it was before this piece was counted, equals its size)
+    npre, seenp = 0, set()
+    for r in rows:
+        if not r.returns:
+            continue
+        datas = [T("self._fp_read", *[a for a in e[2:] if isinstance(a, str)]) for e in r.events("call") if e[1] == "self._fp_read"]
+        if len(datas) != 1 or not any(e[1] == "self._fp.close" for e in r.events("call")):
+            continue
+        D = datas[0]
+        if r.truth(D) is not True and r.cmp(T("len", D), "==", "0") is not False:
+            continue  # nothing was returned on this row: the end-of-stream rows above
+        LEN = T("len", D)
+        last = (r.cmp(REM, "==", LEN) is True or r.cmp(LEN, "==", REM) is True or r.cmp(T("sub", REM, LEN), "==", "0") is True
+                or r.cmp(T("sub", REM, LEN), "<=", "0") is True or r.cmp(REM, "<=", LEN) is True)
+        conds = sorted(str(k_[1:]) + "=" + str(v_) for k_, v_ in r.st.ts.items() if isinstance(k_, tuple) and k_[0] == "cmp" and (REM in str(k_[1]) or REM in str(k_[3])))
+        key = (last, tuple(conds))
+        if key in seenp:
+            continue
+        seenp.add(key)
+        npre += 1
+        ctx.ob(R1, rr.qual, "a piece is returned and the stdlib response closed only when the piece is the last one (remaining == len(piece), both before counting it)", last,
+               "" if last else f"the stdlib response is closed with a non-empty piece in hand under {conds}: the rest of the body is cut off (a later read() returns b'' or raises on a good response)", witness=r.witness(), node=rr.node)
+    ctx.sites(R1, npre, 1, "rows of _raw_read that return a piece and close the stdlib response")
 
 
 def r2_chunk_size_line(ctx, R2):
